@@ -1674,10 +1674,11 @@ def run(ctx, only=None):
     if want("scale"):
         e0 = ctx.evals
         SU = scale_universe(quick)
+        # sorted()/Basis first: few records, so that they are not crowded out by pair records
+        ctx.pmap(shard_scale_sorted, [(quick,)])
         per = max(1, len(SU) // 96)
         ctx.pmap(shard_scale_pairs, [(quick, lo, min(len(SU), lo + per))
                                      for lo in range(0, len(SU), per)])
-        ctx.pmap(shard_scale_sorted, [(quick,), (quick,)][:1] + [])
         sizes = SCALE_SIZES_QUICK if quick else SCALE_SIZES_THOROUGH
         ctx.bounds["scale"] = {
             "sizes": list(sizes),
